@@ -23,6 +23,10 @@ def flatten(spec):
         return [spec]
     if spec[0] == 'or':
         return flatten(spec[1]) + flatten(spec[2])
+    if spec[0] == 'user':
+        # declared pre-passes, the body (that of RemoveRedundantGates), declared post-passes — each a
+        # constituent pass applied with its own implied passes
+        return [x for s in spec[1] for x in flatten(s)] + ['RRG'] + [x for s in spec[2] for x in flatten(s)]
     return [x for s in spec[1] for x in flatten(s)]
 
 
@@ -124,13 +128,13 @@ def search(ctx):
         # --- pipelines = sequencing
         for _ in range(ctx.scale(4, 8)):
             heavy = len(j['inputs']) <= 5
-            spec = gen_spec(rng, heavy=heavy)
+            spec = gen_spec(rng, heavy=heavy, user=True)
             mode = rng.choice(['transform', 'apply'])
             if mode == 'transform':
                 req = {'c': j, 'mode': 'transform', 't': spec}
                 leaves = flatten(spec)
             else:
-                specs = [gen_spec(rng, heavy=heavy) for _ in range(rng.randint(1, 3))]
+                specs = [gen_spec(rng, heavy=heavy, user=True) for _ in range(rng.randint(1, 3))]
                 req = {'c': j, 'mode': 'apply', 'ts': specs}
                 leaves = [x for s in specs for x in flatten(s)]
             ctx.case(json.dumps(['pipe', j['gates'], j['outputs'], req.get('t'), req.get('ts')]), nontriv)
